@@ -250,3 +250,224 @@ Proof.
     rewrite Ec. clear -Lt Hi. assert (Hj : j < length (pcc s)) by (unfold j; lia). clearbody j. clear Hi Lt.
     revert j Hj. induction (pcc s) as [|a l IH]; intros [|j] Hj; cbn in *; try lia; auto. apply IH. lia.
 Qed.
+
+(** * Small-step facts: how consecutive configurations of the trace are related.
+    [dead] = the entries popped between two symbols (kInvalidCornerIndex or corners of already visited faces). *)
+Definition oat (opp : list (option nat)) (c : nat) : option nat := nth c opp None.
+
+Definition pushed (opp : list (option nat)) (y : Z) (c : nat) (st : list (option nat)) : list (option nat) :=
+  if (y =? 7)%Z then tl st else if (y =? 1)%Z then oat opp (next_c c) :: oat opp (prev_c c) :: tl st else st.
+
+(** [link opp cf y st]: symbol [y] was emitted at configuration [cf]; afterwards (and after popping the entries [dead]) the stack is [st] *)
+Definition link (opp : list (option nat)) (cf : cfg) (sy : list Z) (st : list (option nat)) : Prop :=
+  exists y dead, sy = y :: syms (cf_st cf) /\ pushed opp y (cf_corner cf) (stack (cf_st cf)) = dead ++ st /\
+    (y = 1%Z -> oat opp (next_c (cf_corner cf)) <> None /\ oat opp (prev_c (cf_corner cf)) <> None).
+
+Definition tstep (opp : list (option nat)) (cf cf' : cfg) : Prop :=
+  (link opp cf (syms (cf_st cf')) (stack (cf_st cf')) \/
+   (* a new run *) (exists y, syms (cf_st cf') = y :: syms (cf_st cf) /\ stack (cf_st cf') = [Some (cf_corner cf')])) /\
+  (hd 0%Z (syms (cf_st cf')) = 7%Z \/ hd 0%Z (syms (cf_st cf')) = 1%Z -> hd None (stack (cf_st cf')) = Some (cf_corner cf')).
+
+Fixpoint adj (opp : list (option nat)) (tr : list cfg) : Prop :=   (* newest first *)
+  match tr with
+  | cf' :: ((cf :: _) as r) => tstep opp cf cf' /\ adj opp r
+  | _ => True
+  end.
+
+Lemma eget_oat opp c o : eget opp c = EOk o -> oat opp c = o.
+Proof. unfold eget, oat. destruct (nth_error opp c) eqn:E; intros H; inversion H; subst. apply nth_error_nth. auto. Qed.
+
+Ltac hstep H :=
+  match type of H with
+  | ebind ?e _ = EOk _ => let E := fresh "E" in destruct e eqn:E; cbn [ebind] in H; try discriminate
+  | (if ?b then _ else _) = EOk _ => let E := fresh "Eb" in destruct b eqn:E
+  | match ?l with [] => _ | _ :: _ => _ end = EOk _ => let E := fresh "Est" in destruct l eqn:E; try discriminate
+  end.
+
+Lemma mark_stack (b : bool) sa v s1 :
+  (if b then EOk sa else vvl <-- eset (vv sa) v true ;; EOk (with_vv sa vvl)) = EOk s1 ->
+  pcc s1 = pcc sa /\ syms s1 = syms sa /\ stack s1 = stack sa /\ vf s1 = vf sa.
+Proof.
+  destruct b; intros X. inversion X; subst; auto.
+  destruct (eset (vv sa) v true); cbn [ebind] in X; try discriminate. inversion X; subst; auto.
+Qed.
+Lemma check_split_stack' s e o : stack (check_split s e o) = stack s /\ syms (check_split s e o) = syms s /\ vf (check_split s e o) = vf s.
+Proof. unfold check_split. destruct o; auto. destruct (split_symbol_on_face _ _); auto. Qed.
+Lemma encode_hole_stack' c2v opp hid s c first s' : encode_hole c2v opp hid s c first = EOk s' -> stack s' = stack s /\ syms s' = syms s.
+Proof.
+  unfold encode_hole. intros H.
+  repeat match type of H with
+  | ebind ?e _ = EOk _ => destruct e; cbn [ebind] in H; try discriminate
+  | match ?h with Some _ => _ | None => _ end = EOk _ => destruct h; try discriminate
+  end.
+  inversion H; subst. auto.
+Qed.
+
+Section Adj.
+Variables (c2v : list nat) (opp : list (option nat)) (hid : list (option nat)).
+
+Definition pre_inner (tr : list cfg) (c : nat) (s : est) : Prop :=
+  match tr with [] => True | cf :: _ => tstep opp cf (mk_cfg c s) end.
+Definition post_link (tr : list cfg) (s : est) : Prop :=
+  match tr with [] => False | cf :: _ => link opp cf (syms s) (stack s) end.
+
+Lemma inner_tr_adj : forall k s c tr s' tr', inner_tr c2v opp hid k s (Some c) tr = EOk (s', tr') ->
+  adj opp tr -> pre_inner tr c s ->
+  adj opp tr' /\ ((tr' = tr /\ s' = s) \/ post_link tr' s').
+Proof.
+  induction k as [|k IH]; intros s c tr s' tr' H A P; cbn [inner_tr] in H.
+  - inversion H; subst. auto.
+  - cbv zeta in H.
+    assert (A1 : adj opp (mk_cfg c s :: tr)).
+    { destruct tr as [|cf r]; cbn [adj]; auto. }
+    assert (Step : forall s3 o y0, inner_tr c2v opp hid k s3 o (mk_cfg c s :: tr) = EOk (s', tr') -> syms s3 = y0 :: syms s ->
+              stack s3 = stack s -> (y0 = 0 \/ y0 = 3 \/ y0 = 5)%Z ->
+              adj opp tr' /\ ((tr' = tr /\ s' = s) \/ post_link tr' s')).
+    { intros s3 o y0 E3 Y3 St3 Hy.
+      assert (L3 : link opp (mk_cfg c s) (syms s3) (stack s3)).
+      { exists y0, []. cbn [cf_st cf_corner app]. split; auto. split.
+        - unfold pushed. destruct Hy as [->|[->| ->]]; cbn; auto.
+        - intros X. destruct Hy as [Y|[Y|Y]]; rewrite Y in X; discriminate. }
+      destruct o as [nx|].
+      - destruct (IH s3 nx _ _ _ E3 A1) as (B1 & B2).
+        { cbn [pre_inner]. split; [left; exact L3|]. cbn [cf_st]. rewrite Y3. cbn [hd]. intros [X|X]; destruct Hy as [Y|[Y|Y]]; rewrite Y in X; discriminate. }
+        split; auto. right. destruct B2 as [(-> & ->)|B2]; auto.
+      - destruct k; cbn in E3; [|discriminate]. inversion E3; subst. split; auto. }
+    hstep H. hstep H. hstep H. hstep H. hstep H.
+    match goal with X : (if _ then EOk _ else _) = EOk _ |- _ => apply mark_stack in X; cbn in X; destruct X as (P1 & Y1 & St1 & Vf1) end.
+    hstep H.
+    + hstep H. apply (Step _ _ 0%Z H); unfold TOPOLOGY_C; cbn; auto; try congruence.
+    + hstep H. hstep H. hstep H. hstep H.
+      * hstep H. hstep H.
+        -- hstep H. inversion H; subst. split; auto. right. cbn [post_link]. exists 7%Z, []. cbn [cf_st cf_corner app emit with_syms with_stack syms stack].
+           destruct (check_split_stack' (check_split a3 RIGHT_FACE_EDGE a4) LEFT_FACE_EDGE a5) as (C1 & C2 & _).
+           destruct (check_split_stack' a3 RIGHT_FACE_EDGE a4) as (C3 & C4 & _).
+           split; [rewrite C2, C4, Y1; reflexivity|]. split; [|discriminate].
+           unfold pushed. cbn. cbn in Est. rewrite C1, C3, St1 in Est. rewrite Est. reflexivity.
+        -- apply (Step _ _ 5%Z H); unfold TOPOLOGY_R; cbn; rewrite ?(proj1 (check_split_stack' _ _ _)), ?(proj1 (proj2 (check_split_stack' _ _ _))); auto; try congruence.
+      * hstep H. hstep H.
+        -- apply (Step _ _ 3%Z H); unfold TOPOLOGY_L; cbn; rewrite ?(proj1 (check_split_stack' _ _ _)), ?(proj1 (proj2 (check_split_stack' _ _ _))); auto; try congruence.
+        -- hstep H.
+           match goal with X : match ?h with Some _ => _ | None => _ end = EOk ?sx |- _ =>
+             assert (P6 : stack sx = stack s /\ syms sx = TOPOLOGY_S :: syms s);
+             [ destruct h as [hole|];
+               [ hstep X; hstep X;
+                 [ inversion X; subst; cbn; split; congruence
+                 | apply encode_hole_stack' in X; cbn in X; destruct X as [-> ->]; split; congruence ]
+               | inversion X; subst; cbn; split; congruence ] | ] end.
+           destruct P6 as [P6 Y6]. hstep H. inversion H; subst. split; auto. right. cbn [post_link].
+           exists 1%Z, []. cbn [cf_st cf_corner app with_f2s with_stack syms stack]. split; [rewrite Y6; reflexivity|].
+           match goal with X : right_corner opp c = EOk ?r, X2 : left_corner opp c = EOk ?l,
+                           X3 : face_visited_opt _ ?r = EOk false, X4 : face_visited_opt _ ?l = EOk false |- _ =>
+             assert (Er : oat opp (next_c c) = r) by (apply eget_oat; exact X);
+             assert (El : oat opp (prev_c c) = l) by (apply eget_oat; exact X2);
+             assert (Nr : r <> None) by (intro Q; rewrite Q in X3; cbn in X3; discriminate);
+             assert (Nl : l <> None) by (intro Q; rewrite Q in X4; cbn in X4; discriminate) end.
+           cbn in Est. rewrite P6 in Est.
+           split; [unfold pushed; cbn; rewrite Er, El, Est; reflexivity|].
+           intros _. rewrite Er, El. auto.
+Qed.
+(** between two strips: the head configuration emitted its symbol, some entries were popped *)
+Definition pre_outer (tr : list cfg) (s : est) : Prop :=
+  match tr with
+  | [] => True
+  | cf :: _ => link opp cf (syms s) (stack s) \/
+               (exists y, syms s = y :: syms (cf_st cf) /\ (stack s = [] \/ exists c, stack s = [Some c]))
+  end.
+
+Lemma link_pop cf sy x r : link opp cf sy (x :: r) -> link opp cf sy r.
+Proof. intros (y & dead & A & B & C). exists y, (dead ++ [x]). rewrite <- app_assoc. auto. Qed.
+
+Lemma outer_tr_adj : forall fuel s tr s' tr', outer_tr c2v opp hid fuel s tr = EOk (s', tr') ->
+  adj opp tr -> pre_outer tr s -> adj opp tr' /\ pre_outer tr' s' /\ stack s' = [].
+Proof.
+  induction fuel as [|k IH]; intros s tr s' tr' H A P; cbn [outer_tr] in H; [discriminate|].
+  destruct (stack s) as [|top r] eqn:St.
+  - inversion H; subst. auto.
+  - assert (Pop : pre_outer tr (with_stack s r)).
+    { destruct tr as [|cf t]; cbn [pre_outer] in *; auto. cbn [with_stack syms stack]. destruct P as [L|(y & Y & [X|(c0 & X)])].
+      - left. rewrite St in L. eapply link_pop; eauto.
+      - congruence.
+      - right. exists y. split; auto. left. rewrite St in X. inversion X; auto. }
+    destruct top as [c|]; [|apply (IH _ _ _ _ H); auto].
+    hstep H. hstep H; [apply (IH _ _ _ _ H); auto|].
+    hstep H. match goal with X : inner_tr _ _ _ _ _ _ _ = EOk ?p |- _ => destruct p as [s1 tr1]; rename X into E1 end. cbn [fst snd] in H.
+    destruct (inner_tr_adj _ _ _ _ _ _ E1 A) as (A1 & B1).
+    { destruct tr as [|cf t]; cbn [pre_inner pre_outer] in *; auto. split.
+      - destruct P as [L|(y & Y & [X|(c0 & X)])]; [left; exact L|congruence|].
+        right. exists y. cbn [cf_st cf_corner]. rewrite St in X. inversion X; subst. rewrite St. auto.
+      - intros _. cbn [cf_st cf_corner]. rewrite St. reflexivity. }
+    apply (IH _ _ _ _ H); auto.
+    destruct B1 as [(-> & ->)|B1]; auto. destruct tr1 as [|cf1 t1]; cbn [post_link pre_outer] in *; [contradiction|auto].
+Qed.
+Definition run_inv (tr : list cfg) (s : est) : Prop :=
+  adj opp tr /\ match tr with [] => True | cf :: _ => exists y, syms s = y :: syms (cf_st cf) end.
+
+Lemma from_corner_tr_adj s c tr s' tr' : from_corner_tr c2v opp hid s (Some c) tr = EOk (s', tr') -> run_inv tr s -> run_inv tr' s'.
+Proof.
+  intros H [A R]. unfold from_corner_tr in H. destruct (outer_tr_adj _ _ _ _ _ H A) as (A' & P' & _).
+  - destruct tr as [|cf t]; cbn [pre_outer]; auto. right. destruct R as (y & Y). exists y. cbn [with_stack syms stack]. eauto.
+  - split; auto. destruct tr' as [|cf t]; auto. cbn [pre_outer] in P'. destruct P' as [(y & dead & Y & _)|(y & Y & _)]; eauto.
+Qed.
+
+Definition run_inv4 (st : eres (est * list bool * list nat * list cfg)) : Prop :=
+  forall s bits inits tr, st = EOk (s, bits, inits, tr) -> run_inv tr s.
+
+Lemma run_inv_same tr s s' : run_inv tr s -> syms s' = syms s -> run_inv tr s'.
+Proof. intros [A R] E. split; auto. destruct tr; auto. rewrite E. auto. Qed.
+
+Lemma ec_corner_tr_adj st c_id : run_inv4 st -> run_inv4 (ec_corner_tr c2v opp hid st c_id).
+Proof.
+  intros Co s' bits' inits' tr' H. unfold ec_corner_tr in H.
+  destruct st as [[[[s bits] inits] tr]| | |]; cbn [ebind] in H; try discriminate. specialize (Co s bits inits tr eq_refl).
+  hstep H. hstep H. { inversion H; subst; auto. }
+  destruct (is_degenerated c2v (c_id / 3)). { inversion H; subst; auto. }
+  hstep H. match goal with X : find_init _ _ _ _ = EOk ?p |- _ => destruct p as [start interior] end. destruct interior.
+  - repeat hstep H.
+    match type of H with match ?o with Some _ => _ | None => _ end = _ => destruct o as [oc|] end.
+    + hstep H. hstep H. { inversion H; subst. eapply run_inv_same; eauto. }
+      hstep H. match goal with X : from_corner_tr _ _ _ _ _ _ = EOk ?p |- _ => destruct p as [s1 tr1]; cbn [fst snd] in H; inversion H; subst;
+        eapply from_corner_tr_adj; [exact X|]; eapply run_inv_same; eauto end.
+    + inversion H; subst. eapply run_inv_same; eauto.
+  - hstep H. hstep H.
+    match goal with X : from_corner_tr _ _ _ _ _ _ = EOk ?p, X2 : encode_hole _ _ _ _ _ _ = EOk _ |- _ =>
+      destruct p as [s1 tr1]; cbn [fst snd] in H; inversion H; subst;
+      eapply from_corner_tr_adj; [exact X|]; apply encode_hole_stack' in X2; destruct X2; eapply run_inv_same; eauto end.
+Qed.
+
+Lemma ec_fold_tr_adj l : forall st, run_inv4 st -> run_inv4 (fold_left (ec_corner_tr c2v opp hid) l st).
+Proof. induction l as [|a l IH]; intros st Co; cbn [fold_left]; auto. apply IH. apply ec_corner_tr_adj. auto. Qed.
+End Adj.
+
+Lemma adj_tl opp a tr : adj opp (a :: tr) -> adj opp tr.
+Proof. destruct tr as [|b t]; cbn [adj]; [auto|intros [_ X]; exact X]. Qed.
+
+Lemma adj_rev_nth opp tr : adj opp tr -> forall i cf cf', nth_error (rev tr) i = Some cf -> nth_error (rev tr) (S i) = Some cf' -> tstep opp cf cf'.
+Proof.
+  induction tr as [|a tr IH]; intros A i cf cf' E1 E2; [destruct i; discriminate|].
+  cbn [rev] in E1, E2.
+  assert (Li : S i < length (rev tr ++ [a])) by (apply nth_error_Some; congruence). rewrite app_length, rev_length in Li. cbn in Li.
+  destruct (Nat.eq_dec (S i) (length tr)) as [Ei|Ni].
+  - rewrite nth_error_app2 in E2 by (rewrite rev_length; lia). rewrite rev_length, Ei, Nat.sub_diag in E2. cbn in E2. inversion E2; subst cf'.
+    rewrite nth_error_app1 in E1 by (rewrite rev_length; lia).
+    destruct tr as [|b tr]; [cbn in Ei; lia|]. cbn [adj] in A. destruct A as [T _].
+    cbn [rev] in E1. cbn [length] in Ei. rewrite nth_error_app2 in E1 by (rewrite rev_length; lia).
+    rewrite rev_length in E1. replace (i - length tr) with 0 in E1 by lia. cbn in E1. inversion E1; subst. auto.
+  - rewrite nth_error_app1 in E1, E2 by (rewrite rev_length; lia).
+    apply (IH (adj_tl _ _ _ A) i); auto.
+Qed.
+
+(** consecutive configurations of the encoder's trace *)
+Theorem trace_steps c2v opp nv niso ndeg o tr : eb_encode_tr c2v opp nv niso ndeg = EOk (o, tr) ->
+  forall i cf cf', nth_error tr i = Some cf -> nth_error tr (S i) = Some cf' -> tstep opp cf cf'.
+Proof.
+  unfold eb_encode_tr. intros H. destruct (NF c2v =? ndeg); [discriminate|].
+  destruct (find_holes c2v opp nv) as [[hid vh]| | |]; cbn [ebind] in H; try discriminate.
+  destruct (fold_left (ec_corner_tr c2v opp hid) (seq 0 (NC c2v)) (EOk (init_est (NF c2v) nv vh, [], [], []))) as [[[[s bits] inits] tr0]| | |] eqn:Ef;
+    cbn [ebind] in H; try discriminate.
+  inversion H; subst o tr. clear H.
+  assert (R : run_inv opp tr0 s).
+  { apply (ec_fold_tr_adj c2v opp hid (seq 0 (NC c2v)) (EOk (init_est (NF c2v) nv vh, [], [], []))) with (bits := bits) (inits := inits); auto.
+    intros s0 b0 i0 t0 X. inversion X; subst. split; cbn; auto. }
+  apply adj_rev_nth. apply R.
+Qed.
